@@ -114,6 +114,14 @@ def _param_names(types, idx, acc, depth=0):
             _param_names(types, ty["inner"], acc, depth + 1)
 
 
+def _mentions_name(name, text):
+    return (name in text) if not name.isidentifier() else bool(_re.search(r"\b%s\b" % _re.escape(name), text))
+
+
+def _replace_name(name, by, text):
+    return text.replace(name, by) if not name.isidentifier() else _re.sub(r"\b%s\b" % _re.escape(name), by, text)
+
+
 def _subst_type(types, idx, name, conc, memo, depth=0):
     """index of the type `idx` with the type parameter `name` replaced by the type `conc`"""
     if idx in memo:
@@ -122,11 +130,11 @@ def _subst_type(types, idx, name, conc, memo, depth=0):
     if ty.get("k") == "param":
         memo[idx] = conc if ty["s"] == name else idx
         return memo[idx]
-    if depth > 6 or not _re.search(r"\b%s\b" % _re.escape(name), ty.get("s", "")):
+    if depth > 6 or not _mentions_name(name, ty.get("s", "")):
         memo[idx] = idx
         return idx
     new = dict(ty)
-    new["s"] = _re.sub(r"\b%s\b" % _re.escape(name), types[conc]["s"], ty["s"])
+    new["s"] = _replace_name(name, types[conc]["s"], ty["s"])
     if "args" in ty and ty["args"]:
         new["args"] = [_subst_type(types, j, name, conc, memo, depth + 1) if isinstance(j, int) else j for j in ty["args"]]
     if isinstance(ty.get("inner"), int):
@@ -141,35 +149,48 @@ _IMPLS = {}
 
 
 def _monomorphise(types, call, callee):
-    """A generic helper with one type parameter called with one type argument: give the copy of its
-    body the concrete types of this call site (owner types of Box::into_raw etc. are read from them)."""
+    """A generic helper called with concrete type arguments: give the copy of its body the concrete
+    types of this call site (owner types of Box::into_raw etc. are read from them, and trait methods
+    called on a type parameter become calls of the concrete impl)."""
     substs = [s for s in (call.get("f") or {}).get("substs", []) if isinstance(s, int)]
     names = set()
     for l in callee["locals"]:
         _param_names(types, l[0], names)
-    if len(names) != 1 or len(substs) != 1:
+    tps = callee.get("type_params")
+    if tps and len(tps) == len(substs):
+        pairs = [(n, c) for n, c in zip(tps, substs) if types[c].get("k") != "param" or types[c].get("s") != n]
+        # a parameter that stays a parameter of the caller (`T` -> `T`) needs no rewriting
+        pairs = [(n, c) for n, c in pairs if types[c].get("k") != "param"] + [(n, c) for n, c in pairs if types[c].get("k") == "param" and types[c].get("s") != n]
+    elif len(names) == 1 and len(substs) == 1:
+        pairs = [(next(iter(names)), substs[0])]
+        if types[substs[0]].get("k") == "param":
+            return
+    else:
         return
-    name, conc = next(iter(names)), substs[0]
-    if types[conc].get("k") == "param":
-        return
-    memo = {}
-    for l in callee["locals"]:
-        l[0] = _subst_type(types, l[0], name, conc, memo)
+    # longest names first: `impl IntoIterator<Item = &mut M>` is rewritten before `M`
+    for name, conc in sorted(pairs, key=lambda x: -len(x[0])):
+        memo = {}
+        for l in callee["locals"]:
+            l[0] = _subst_type(types, l[0], name, conc, memo)
+        for b in callee["blocks"]:
+            t = b["term"]
+            if t["k"] == "call" and "f" in t:
+                f = t["f"] = dict(t["f"])
+                f["substs"] = [_subst_type(types, s, name, conc, memo) if isinstance(s, int) else s for s in f.get("substs", [])]
+                if f.get("self_ty"):
+                    f["self_ty"] = f["self_ty"].replace(name, types[conc]["s"]) if not name.isidentifier() else _re.sub(r"\b%s\b" % _re.escape(name), types[conc]["s"], f["self_ty"])
+            for st in b["st"]:
+                if st["k"] == "A" and st["r"].get("k") == "cast" and isinstance(st["r"].get("ty"), int):
+                    st["r"] = dict(st["r"], ty=_subst_type(types, st["r"]["ty"], name, conc, memo))
     for b in callee["blocks"]:
         t = b["term"]
         if t["k"] == "call" and "f" in t:
-            f = t["f"] = dict(t["f"])
-            f["substs"] = [_subst_type(types, s, name, conc, memo) if isinstance(s, int) else s for s in f.get("substs", [])]
-            if f.get("self_ty"):
-                f["self_ty"] = _re.sub(r"\b%s\b" % _re.escape(name), types[conc]["s"], f["self_ty"])
+            f = t["f"]
             # a trait method called on the type parameter is now a call of the concrete type's impl
             if f.get("trait") and not f.get("trait_impl") and f.get("local") and not f.get("res"):
                 impl = _IMPLS.get((f["trait"], f["name"], f.get("self_ty")))
                 if impl is not None:
                     f["path"], f["adt"], f["trait_impl"] = impl["path"], impl.get("adt"), True
-        for st in b["st"]:
-            if st["k"] == "A" and st["r"].get("k") == "cast" and isinstance(st["r"].get("ty"), int):
-                st["r"] = dict(st["r"], ty=_subst_type(types, st["r"]["ty"], name, conc, memo))
 
 
 def inline_call(caller, bi, callee, types=None):
